@@ -89,6 +89,10 @@ func (pr *printer) decl(d Decl) {
 				pr.unionDef(kw, x)
 			}
 		}
+	case *RawDecl:
+		for _, l := range strings.Split(strings.TrimRight(d.Text, "\n"), "\n") {
+			pr.lines = append(pr.lines, l)
+		}
 	case *FuncDef:
 		pr.funcDef(d)
 	case *VarDef:
